@@ -327,7 +327,10 @@ def check_positions(ctx, lib):
             vd = po.of_operand(t["args"][4])
             pos_ok = pos == {("index", ("param", 2))}
             val_ok = val == {("elem", ("param", 2))}
-            v_ok = bool(vd) and (vd == {fixed_t} if case == "fixed" else all(is_var(x) for x in vd))
+            # variadic: inputs.get(k).unwrap_or(variadic), or the same choice written as `if k < inputs.len() { &inputs[k] } else { variadic }`
+            # (the index in the latter is discharged as a guarded index by the C05 rules)
+            guarded_choice = vd == {fixed_t, ("field", ("param", 1), "variadic")}
+            v_ok = bool(vd) and (vd == {fixed_t} if case == "fixed" else (all(is_var(x) for x in vd) or guarded_choice))
             if pos_ok and val_ok and v_ok:
                 kinds.add(case)
             ctx.check(pos_ok and val_ok and v_ok, rule, f"site@{case}",
